@@ -768,6 +768,9 @@ def is_set_expr(e, setnames=()):
         return True
     if isinstance(e, ast.Attribute) and e.attr in SET_ATTRS:
         return True
+    if isinstance(e, ast.Call) and ((isinstance(e.func, ast.Name) and e.func.id in SET_FUNCS) or
+                                    (isinstance(e.func, ast.Attribute) and e.func.attr in SET_FUNCS)):
+        return True
     if isinstance(e, ast.Call) and isinstance(e.func, ast.Name) and e.func.id in ("set", "frozenset"):
         return True
     if isinstance(e, ast.Name) and e.id in setnames:
@@ -793,19 +796,62 @@ def contains_dict_view(e):
     return any(is_dict_view(n) for n in ast.walk(e))
 
 
+def import_aliases(mod):
+    """local name -> dotted name it stands for (import a.b as c; from a import b as c)"""
+    al = {}
+    for n in ast.walk(mod.tree):
+        if isinstance(n, ast.Import):
+            for a in n.names:
+                if a.asname:
+                    al[a.asname] = a.name
+        elif isinstance(n, ast.ImportFrom) and n.module and n.level == 0:
+            for a in n.names:
+                al[a.asname or a.name] = n.module + "." + a.name
+    return al
+
+
+def dotted(func, aliases):
+    """the dotted name a call's function denotes, import aliases resolved (`from time import time` -> time.time)"""
+    parts = []
+    e = func
+    while isinstance(e, ast.Attribute):
+        parts.append(e.attr)
+        e = e.value
+    if not isinstance(e, ast.Name):
+        return None
+    base = aliases.get(e.id, e.id)
+    return ".".join([base] + list(reversed(parts)))
+
+
+HAZARD_PREFIXES = (("secrets.", "urandom"), ("numpy.random.", "otherGenerator"), ("time.", "time"), ("datetime.", "time"),
+                   ("uuid.uuid", "uuid"), ("pathlib.Path.cwd", "cwd"), ("pathlib.Path.home", "environ"))
+HAZARD_CALLS.update({"os.path.abspath": "abspath", "os.path.realpath": "abspath", "os.path.expanduser": "environ",
+                     "os.path.expandvars": "environ", "os.getlogin": "host", "os.uname": "host", "sys.getrefcount": "id",
+                     "locale.getlocale": "environ", "locale.getpreferredencoding": "environ", "gc.get_objects": "id"})
+SET_FUNCS = set()      # names of functions of the package that return a set expression
+
+
 def hazards(G):
     out = []
     SET_ATTRS.clear()
+    SET_FUNCS.clear()
+    for f in G.fns:
+        for n in own_nodes(f.node):
+            if isinstance(n, ast.Return) and n.value is not None and is_set_expr(n.value, set_typed_names(f.node)):
+                SET_FUNCS.add(f.qual.split(".")[-1])
     for mod in G.mods:
         for n in ast.walk(mod.tree):
             if isinstance(n, ast.Assign) and len(n.targets) == 1 and isinstance(n.targets[0], ast.Attribute) \
                     and is_set_expr(n.value):
                 SET_ATTRS.add(n.targets[0].attr)
 
+    alias_cache = {}
+
     def add(mod, qual, kind, node):
         out.append({"file": mod.rel[len("cnfgen/"):], "fn": qual, "kind": kind, "text": src(node)[:160]})
 
     def scan(mod, qual, node, nodes):
+        aliases = alias_cache.setdefault(mod.rel, import_aliases(mod))
         setnames = set_typed_names(node) if not isinstance(node, ast.Module) else set()
         objnames = object_names(node)
         parents = {}
@@ -817,6 +863,14 @@ def hazards(G):
             if isinstance(n, ast.Call):
                 t = src(n.func)
                 kind = HAZARD_CALLS.get(t)
+                full = dotted(n.func, aliases)
+                if kind is None and full is not None:
+                    kind = HAZARD_CALLS.get(full)
+                    if kind is None:
+                        for pre, k in HAZARD_PREFIXES:
+                            if full.startswith(pre):
+                                kind = k
+                                break
                 if kind is None and isinstance(n.func, ast.Attribute) and isinstance(n.func.value, ast.Name) and \
                         n.func.value.id in TIME_MODULES:
                     kind = "time"
